@@ -355,6 +355,11 @@ func (c *Conn) nextFrame() (int, MessageType, []byte, bool, bool, bool, error) {
 		if c.message != nil {
 			ml = len(*c.message)
 		}
+		// what has been assembled so far plus this payload plus the frame
+		// head must fit an int64: the sums below must not wrap around.
+		if bodyLen > (1<<63-1)-int64(ml)-14 {
+			return 0, 0, nil, false, false, false, ErrMessageTooLarge
+		}
 		if c.isMessageTooLarge(ml + int(bodyLen)) {
 			return 0, 0, nil, false, false, false, ErrMessageTooLarge
 		}
